@@ -19,11 +19,18 @@ def events_for_disc(dfs, d, scratch, eid, curs=(36,), uis=UIS, want_inf=False, w
     raws = [discs.raw_meta(e) for e in ents]
     nms = [discs.nm(e) for e in ents]
     base = [dfs, "--file", d.path]
-    o = common.run(base + ["info", d.colon + "#.*"])
+    if eid % 3 == 1:      # drive taken from --drive, followed by a --ui option
+        o = common.run(base + ["--drive", d.drive, "--ui", "acorn", "info", "#.*"])
+    else:
+        o = common.run(base + ["info", d.colon + "#.*"])
     ev.append(dict(e="info", id=eid, rc=o.rc if o.rc is not None else -1, raw=raws, nm=nms, obs=discs.parse_info(o.out) or []))
     for cur in curs:
         for ui in uis:
-            argv = base + (["--ui", ui] if ui else []) + ["--dir", chr(cur), "cat", d.drive]
+            # the same options in either order (every second disc): --ui must not disturb --dir / --drive given before it
+            if eid % 2:
+                argv = base + ["--dir", chr(cur), "--drive", d.drive] + (["--ui", ui] if ui else []) + ["cat"]
+            else:
+                argv = base + (["--ui", ui] if ui else []) + ["--dir", chr(cur), "cat", d.drive]
             o = common.run(argv, env={"COLUMNS": "80"})
             eff = ui or {"DFS": "acorn", "WDFS": "watford", "OPUS": "opus"}[d.variant]
             pc = discs.parse_cat(o.out, eff, cur) or dict(title_obs=[-1], cycle_obs=-1, opt_obs=-1, dens_obs="?", shown=[])
